@@ -14,6 +14,9 @@ POPS = {
     'p1': (D('m', 'g', 'p'),),
     'p2': (D('a', 'g', 'p'), D('b', 'g', 'q')),
     'p4': (D('b', 'a', 'e'), D('d', 'm', 'z'), D('f', 'a', 'z'), D('k', 'm', 'e')),
+    # names that differ in capitalisation: "name order" is code-point order, capitals first
+    'pc': (D('Bulb', 'Kitchen', 'Up'), D('apple', 'hall', 'down'), D('Cord', 'Lounge', 'down'), D('desk', 'office', 'Up'),
+           D('Zed', 'hall', 'Attic')),
 }
 
 
@@ -67,10 +70,11 @@ def run(tier, seed):
         nest = (3 if name in ('p4', 'p2') else 2) if tier == 'thorough' else 2
         acc.run('loops/%s+nested%d' % (name, nest), 'mc.lang.gen_loops', 'programs',
                 (POPS[name], nest), POPS[name], cap=20000)
+    acc.run('loops/pc', 'mc.lang.gen_loops', 'programs', (POPS['pc'], 0), POPS['pc'], cap=20000)
     acc.report(rep, 'every loop spec of gen_loops (counts 0,1,2,3,5 as literal/variable/expression; all 36 integer ranges; '
                     'interpolation and cycle grids; all/group/location/in-lists with from/cycle) x break none/unconditional/'
                     'second-pass x in-routine; cycle in each unit mode; nested pairs over a reduced spec set x 5 break '
-                    'placements; on populations of 0,1,2,4 lights')
+                    'placements; on populations of 0,1,2,4 lights and one of 5 lights whose names, groups and locations differ in capitalisation')
     n_dyn, dviol = _dynamic(tier)
     for kind, (cnt, text, detail, pop) in sorted(dviol.items()):
         rep.violation(kind, '%s (%d programs), population at first discovery %r: `%s` -> %s' % (kind, cnt, [tuple(d)[:3] for d in pop], text, detail),
